@@ -33,11 +33,28 @@ Proof. exact (@front_refusal_blind V veqb). Qed.
 Theorem Chain_reject_status : forall (rq : request V) st, gate rq = Reject st -> st = 400 \/ st = 403 \/ st = 500.
 Proof. exact (@reject_status V). Qed.
 
+(* every reply that carries data was preceded by one complete audit record naming the identified caller
+   (C06's record-before-disclosure clause at the wire, for API replies and the HTML page alike) *)
+Theorem Chain_front_value_logged : forall ev (s : dbstate V) (rq : request V) s' rsp fx r,
+  http_step veqb ev s rq = (s', rsp, fx) -> rb rsp = BodyResult r -> carries_data r = true ->
+  exists c q post, gate rq = Accept c q
+    /\ fx = EAudit (the_entry c (dispatch q) (act_of (dispatch q)) true) :: post
+    /\ (post = [] \/ post = [ESave]).
+Proof. exact (@front_value_logged V veqb). Qed.
+
+(* a 403 left its record, authorized = false, unless the sink itself failed *)
+Theorem Chain_front_denial_logged : forall ev (s : dbstate V) (rq : request V) c q s' rsp fx,
+  gate rq = Accept c q -> http_step veqb ev s rq = (s', rsp, fx) -> status rsp = 403 ->
+  fx = [EAudit (the_entry c (dispatch q) (act_of (dispatch q)) false)] \/ audit_failed fx = true.
+Proof. exact (@front_denial_logged V veqb). Qed.
+
 End Chain.
 
 Print Assumptions Chain_front_requires_grant.
 Print Assumptions Chain_front_refusal_blind.
 Print Assumptions Chain_reject_status.
+Print Assumptions Chain_front_value_logged.
+Print Assumptions Chain_front_denial_logged.
 
 (* non-vacuity: a caller granted only `info` on "a": a conditional get of "a" is refused identically on a
    store that has "a" at version 1 and on an empty one; its info call is informative *)
